@@ -117,6 +117,10 @@ func main() {
 			}
 		}
 		<-done
+		if os.Getenv("FAKESSH_EXIT") != "" {
+			// the peer leaves by itself: what it wrote is still to be read by the client
+			return
+		}
 		time.Sleep(time.Hour)
 	default: // login
 		in := bufio.NewReader(os.Stdin)
